@@ -178,6 +178,8 @@ impl ParFrameBuf {
             .0
             .send(Some(bufid))
             .expect(panic_msg::MPMC_SEND_FAILED);
+        #[cfg(flacenc_verif)]
+        crate::verif_hook::point("feed.encode.send.after", bufid, 0);
         starved
     }
 
@@ -211,14 +213,22 @@ impl ParContext {
             let receiver = process_queue.1.clone();
             let inner = Arc::clone(&inner);
             thread::spawn(move || loop {
+                #[cfg(flacenc_verif)]
+                crate::verif_hook::point("hash.recv.before", 0, 0);
                 let data: Vec<u8> = receiver.recv().expect(panic_msg::MPMC_RECV_FAILED);
+                #[cfg(flacenc_verif)]
+                crate::verif_hook::point("hash.recv.after", data.len(), 0);
                 if data.is_empty() {
+                    #[cfg(flacenc_verif)]
+                    crate::verif_hook::point("hash.exit", 0, 0);
                     break;
                 }
                 let mut inner = inner.lock().expect(panic_msg::MUTEX_LOCK_FAILED);
                 inner
                     .fill_le_bytes(&data, bytes_per_sample)
                     .expect(panic_msg::NO_ERROR_EXPECTED);
+                #[cfg(flacenc_verif)]
+                crate::verif_hook::point("hash.done", data.len(), 0);
             })
         };
         Self {
@@ -231,15 +241,25 @@ impl ParContext {
     }
 
     fn enqueue_buffer(&self) {
+        #[cfg(flacenc_verif)]
+        crate::verif_hook::point(
+            "ctx.hash.send.before",
+            self.bytebuf.len(),
+            self.process_queue.0.len(),
+        );
         self.process_queue
             .0
             .send(self.bytebuf.clone())
             .expect(panic_msg::MPMC_SEND_FAILED);
+        #[cfg(flacenc_verif)]
+        crate::verif_hook::point("ctx.hash.send.after", self.bytebuf.len(), 0);
     }
 
     /// Sends stop signal and returns the number of remaining blocks in queue.
     fn request_stop(&self) -> usize {
         let ret = self.process_queue.0.len();
+        #[cfg(flacenc_verif)]
+        crate::verif_hook::point("ctx.hash.stop", ret, 0);
         self.process_queue
             .0
             .send(vec![])
@@ -248,9 +268,13 @@ impl ParContext {
     }
 
     fn finalize(self) -> Context {
+        #[cfg(flacenc_verif)]
+        crate::verif_hook::point("ctx.hash.join.before", 0, 0);
         self.thread_handle
             .join()
             .expect(panic_msg::THREAD_JOIN_FAILED);
+        #[cfg(flacenc_verif)]
+        crate::verif_hook::point("ctx.hash.join.after", 0, 0);
         // since this method is called from the main thread, the race
         // condition as written in the document will never happen. However,
         // anyway the expression above will be the future standard, so this
@@ -297,24 +321,38 @@ fn feed_fixed_block_size<T: Source, C: Fill>(
     let mut worker_starvation_count = 0usize;
 
     'feed: loop {
+        #[cfg(flacenc_verif)]
+        crate::verif_hook::point("feed.refill.recv.before", parbuf.refill_queue.1.len(), 0);
         let bufid = parbuf.recv_refill_request();
+        #[cfg(flacenc_verif)]
+        crate::verif_hook::point("feed.refill.recv.after", bufid, 0);
         {
             let mut numbuf = parbuf.buffers[bufid]
                 .lock()
                 .expect(panic_msg::MUTEX_LOCK_FAILED);
+            #[cfg(flacenc_verif)]
+            crate::verif_hook::point("feed.buf.lock", bufid, 0);
             let mut framebuf_and_ctx = (&mut numbuf.framebuf, &mut context);
             let read_samples = src.read_samples(block_size, &mut framebuf_and_ctx)?;
             if read_samples == 0 {
                 break 'feed;
             }
             numbuf.frame_number = Some(frame_count);
+            #[cfg(flacenc_verif)]
+            crate::verif_hook::point("feed.frame.assign", bufid, frame_count);
         }
         frame_count += 1;
+        #[cfg(flacenc_verif)]
+        crate::verif_hook::point("feed.encode.send.before", bufid, parbuf.encode_queue.0.len());
         if parbuf.enqueue_encode(bufid) {
             worker_starvation_count += 1;
         }
     }
+    #[cfg(flacenc_verif)]
+    crate::verif_hook::point("feed.stop.send.before", workers, parbuf.encode_queue.0.len());
     parbuf.request_stop(workers);
+    #[cfg(flacenc_verif)]
+    crate::verif_hook::point("feed.stop.send.after", workers, 0);
     Ok((
         FeedStats {
             frame_count,
@@ -358,6 +396,8 @@ pub fn encode_with_fixed_block_size<T: Source>(
     block_size: usize,
 ) -> Result<Stream, EncodeError> {
     let config: Arc<Verified<config::Encoder>> = Arc::new(config.clone());
+    #[cfg(flacenc_verif)]
+    let _verif_return_guard = crate::verif_hook::ExitGuard("par.return", 0);
     let mut stream = Stream::new(src.sample_rate(), src.channels(), src.bits_per_sample())?;
 
     // Probably not very important, but it follows the FLAC reference encoder's behavior
@@ -369,6 +409,12 @@ pub fn encode_with_fixed_block_size<T: Source>(
         .unwrap();
 
     let worker_count = determine_worker_count(&config)?;
+    #[cfg(flacenc_verif)]
+    crate::verif_hook::point(
+        "par.enter",
+        worker_count,
+        worker_count * constant::par::FRAMEBUF_MULTIPLICITY,
+    );
     let parbuf = Arc::new(ParFrameBuf::new(
         worker_count * constant::par::FRAMEBUF_MULTIPLICITY,
         src.channels(),
@@ -383,9 +429,23 @@ pub fn encode_with_fixed_block_size<T: Source>(
             let stream_info = stream.stream_info().clone();
             let config = Arc::clone(&config);
             thread::spawn(move || {
+                #[cfg(flacenc_verif)]
+                crate::verif_hook::point("work.start", _n, 0);
+                #[cfg(flacenc_verif)]
+                let _verif_exit_guard = crate::verif_hook::ExitGuard("work.exit", _n);
+                #[cfg(flacenc_verif)]
+                crate::verif_hook::point("work.encode.recv.before", _n, 0);
                 while let Some(bufid) = parbuf.pop_encode_queue() {
+                    #[cfg(flacenc_verif)]
+                    crate::verif_hook::point("work.encode.recv.after", bufid, 0);
                     let (frame_number, encode_result) = {
                         let numbuf = &parbuf.lock_buffer(bufid);
+                        #[cfg(flacenc_verif)]
+                        crate::verif_hook::point(
+                            "work.buf.lock",
+                            bufid,
+                            numbuf.frame_number.unwrap_or(usize::MAX),
+                        );
                         let frame_number = numbuf.frame_number.expect(panic_msg::FRAMENUM_NOT_SET);
                         (
                             frame_number,
@@ -397,17 +457,31 @@ pub fn encode_with_fixed_block_size<T: Source>(
                             ),
                         )
                     };
+                    #[cfg(flacenc_verif)]
+                    crate::verif_hook::point(
+                        "work.encode.done",
+                        frame_number,
+                        usize::from(encode_result.is_err()) + (bufid << 1),
+                    );
                     encode_result.map_or_else(
                         |e| {
                             unreachable!("{}, err={:?}", panic_msg::ERROR_NOT_EXPECTED, e);
                         },
                         |mut frame| {
+                            #[cfg(flacenc_verif)]
+                            crate::verif_hook::point("work.refill.send", bufid, frame_number);
                             parbuf.enqueue_refill(bufid);
                             frame.precompute_bitstream();
+                            #[cfg(flacenc_verif)]
+                            crate::verif_hook::point("work.sink.push", frame_number, bufid);
                             parsink.push(frame_number, frame);
                         },
                     );
+                    #[cfg(flacenc_verif)]
+                    crate::verif_hook::point("work.encode.recv.before", _n, 1);
                 }
+                #[cfg(flacenc_verif)]
+                crate::verif_hook::point("work.stop.recv", _n, 0);
             })
         })
         .collect();
@@ -432,10 +506,14 @@ pub fn encode_with_fixed_block_size<T: Source>(
         .stream_info_mut()
         .set_md5_digest(&context.md5_digest());
 
+    #[cfg(flacenc_verif)]
+    crate::verif_hook::point("par.join.before", worker_count, 0);
     for h in join_handles {
         h.join().expect(panic_msg::THREAD_JOIN_FAILED);
     }
 
+    #[cfg(flacenc_verif)]
+    crate::verif_hook::point("par.join.after", worker_count, 0);
     destruct_arc(parsink).finalize(|f: Frame| stream.add_frame(f));
 
     stream
